@@ -271,3 +271,88 @@ func TestC09(t *testing.T) {
 	defer ev.Flush()
 	rapid.Check(t, c09prop(ev))
 }
+
+// TestC09DoubleGrant: "an upload never overwrites an existing file" when the file came into
+// existence after the upload was granted: two uploads of one name are granted while the name
+// is free, the first transfer completes, then the second one runs.
+func TestC09DoubleGrant(t *testing.T) {
+	ev := evid.New("C09", "TestC09DoubleGrant")
+	defer ev.Flush()
+	rapid.Check(t, func(rt *rapid.T) {
+		name := genFileName(rt, "name")
+		a := genBytes(rt, "first", genFileSize(rt, "sizeA"))
+		b := genBytes(rt, "second", genFileSize(rt, "sizeB"))
+		preserve := rapid.Bool().Draw(rt, "preserve")
+		secondVia := rapid.SampledFrom([]string{"second-grant", "second-grant", "resume-grant"}).Draw(rt, "secondVia")
+		cutFirst := rapid.Bool().Draw(rt, "cutFirstOnce")
+		wireName := macRoman(name)
+		inWorld(rt, hlsim.Options{Agreement: "a", PreserveResourceForks: preserve, Accounts: []hlsim.AccountSpec{acct("admin", "Admin", "adminpw", allAccess)}}, func(rt *rapid.T, w *hlsim.World) {
+			final := filepath.Join(w.FileRoot, name)
+			c := loginAs(rt, w, "10.0.0.1:1", "admin", "adminpw", "admin")
+			grant := func(resume bool, total int) []byte {
+				fs := []hlref.Field{fld(hlref.FFileName, wireName)}
+				if resume {
+					fs = append(fs, fld(hlref.FFileTransferOptions, hlref.BE16(2)))
+				} else {
+					fs = append(fs, fld(hlref.FTransferSize, hlref.BE32(total)))
+				}
+				r := c.Request(hlref.TranUploadFile, fs...)
+				if !okReply(r) {
+					return nil
+				}
+				ref, _ := r.Get(hlref.FRefNum)
+				return ref
+			}
+			sa := hlsim.UploadStream(wireName, []byte("a"), a, nil, 2)
+			sb := hlsim.UploadStream(wireName, []byte("b"), b, nil, 2)
+			refA := grant(false, len(sa))
+			if refA == nil {
+				rt.Fatalf("harness: first upload not granted")
+			}
+			var refB []byte
+			if secondVia == "second-grant" {
+				refB = grant(false, len(sb))
+			} else {
+				// a partial file must exist for a resume grant: cut the first transfer once, then both a resume for A and one for B are granted
+				cutFirst = true
+			}
+			if cutFirst {
+				cut := 16 + hlsim.UploadHeaderLen(wireName, []byte("a")) + len(a)/2
+				w.Transfer("10.0.0.1:2", refA, len(sa), sa, cut)
+				if _, err := os.Stat(final); err == nil && len(a) > 0 {
+					rt.Fatalf("file published after a cut")
+				}
+				st, err := os.Stat(final + ".incomplete")
+				if err != nil {
+					return // the cut came before the partial file existed: nothing to resume, scenario does not apply
+				}
+				refA = grant(true, 0)
+				if refA == nil {
+					rt.Fatalf("resume not granted although a partial file exists")
+				}
+				if secondVia == "resume-grant" {
+					refB = grant(true, 0)
+				}
+				sa = hlsim.UploadStream(wireName, []byte("a"), a[st.Size():], nil, 2)
+				sb = hlsim.UploadStream(wireName, []byte("b"), b, nil, 2)
+			}
+			w.Transfer("10.0.0.1:3", refA, len(sa), sa, -1)
+			got, err := os.ReadFile(final)
+			if err != nil || !bytes.Equal(got, a) {
+				rt.Fatalf("first upload of %q: %d bytes sent, file has %d bytes (err %v)", name, len(a), len(got), err)
+			}
+			if refB != nil {
+				w.Transfer("10.0.0.1:4", refB, len(sb), sb, -1)
+			}
+			got, err = os.ReadFile(final)
+			if err != nil || !bytes.Equal(got, a) {
+				rt.Fatalf("%q was uploaded completely (%d bytes); a second upload of the same name, granted (%s) while the name was still free and transferred afterwards, replaced it: the file now has %d bytes (second upload: %d bytes)", name, len(a), secondVia, len(got), len(b))
+			}
+			// and a third request is refused outright
+			if r := grant(false, 10); r != nil {
+				rt.Fatalf("upload request for the existing file %q was granted", name)
+			}
+		})
+		ev.Case(evid.Hash("dg", name, a, b, secondVia, cutFirst, preserve), len(a) > 0 && !bytes.Equal(a, b), "double-grant:"+secondVia)
+	})
+}
